@@ -19,6 +19,9 @@ MENU = [
     ("back", "s1=GT$"), ("back", "n1=GTAX"), ("front", "r1=AC;rightmost"), ("front", "x1=XTAC"), ("back", "l1=^AC...GT"),
     ("front", "l3=AC...GT"),
 ]
+# sets of several anchored adapters: searched through the adapter index (index=True)
+INDEXED_SETS = [("s1", "s2"), ("p1", "p2"), ("s1", "s2", "b1"), ("p1", "p2", "s1", "s2")]
+EXTRA = {"s2": ("back", "s2=CAG$"), "p2": ("front", "p2=^TGC"), "b1": ("back", "b1=ACG"), "s1": ("back", "s1=GT$"), "p1": ("front", "p1=^AC")}
 LOWQ = "!\"#$%&'()*"           # Q0..Q9
 HIGHQ = "".join(chr(c) for c in range(53, 127))  # Q20..Q93
 
@@ -61,6 +64,7 @@ def shards(tier):
                                                   if tier == "thorough" or k % 4 == 1]
     n = 40
     sh = [dict(kind="cutter", tier=tier, combos=combos[i::n]) for i in range(n)]
+    sh += [dict(kind="cutter", tier=tier, combos=[c], index=True) for c in INDEXED_SETS]
     sh += [dict(kind="simple", tier=tier, part=i) for i in range(6)]
     sh += [dict(kind="paircutter", tier=tier, part=i) for i in range(4)]
     sh += [dict(kind="pairrc", tier=tier, part=i) for i in range(4)]
@@ -131,7 +135,15 @@ def _last_match_descr(matches, ads):
     m = matches[-1]
     if isinstance(m, LinkedMatch):
         return ("linked", None, None, 0, None, None)
-    return ("front" if isinstance(m, RemoveBeforeMatch) else "back", m.rstart, m.rstop, 0, None, None)
+    from cutadapt.adapters import PrefixAdapter, SuffixAdapter
+
+    rstart, rstop = m.rstart, m.rstop
+    # an anchored match is at the anchored end by definition: do not take that coordinate from the match itself
+    if isinstance(m.adapter, SuffixAdapter):
+        rstop = len(m.sequence)
+    if isinstance(m.adapter, PrefixAdapter):
+        rstart = 0
+    return ("front" if isinstance(m, RemoveBeforeMatch) else "back", rstart, rstop, 0, None, None)
 
 
 def cutter_shard(d):
@@ -144,19 +156,20 @@ def cutter_shard(d):
     V = res["viol"]
     nmax = 6 if d["tier"] == "quick" else 7
     R = list(alignsweep.strings("ACGT", nmax)) + ["acgtac", "ACgTaC", "NNACGT", "ACGTNN"]
+    use_index = bool(d.get("index"))
     for combo in d["combos"]:
-        specs = [MENU[i] for i in combo]
+        specs = [EXTRA[i] for i in combo] if use_index else [MENU[i] for i in combo]
         ads = make(specs)
         linked = any(isinstance(a, LinkedAdapter) for a in ads)
         for times in (1, 2, 3):
-            trimc = AdapterCutter(ads, times=times, action="trim", index=False)
+            trimc = AdapterCutter(ads, times=times, action="trim", index=use_index)
             for action in ("trim", "none", "mask", "lowercase", "retain", "crop"):
                 if action in ("retain", "crop") and times > 1:
                     continue
                 if linked and action in ("mask", "crop"):
                     continue
-                cut = AdapterCutter(ads, times=times, action=None if action == "none" else action, index=False)
-                cfg = dict(adapters=[s for _, s in specs], types=[t for t, _ in specs], times=times)
+                cut = AdapterCutter(ads, times=times, action=None if action == "none" else action, index=use_index)
+                cfg = dict(adapters=[s for _, s in specs], types=[t for t, _ in specs], times=times, index=use_index)
                 for r in R:
                     q = uq(len(r))
                     res["evals"] += 1
